@@ -92,7 +92,29 @@ M = {
     "bp_bool_setter_branchless": (CG, "if #argument_converted { self.raw_value | (#one << #lowest_bit) } else { self.raw_value & !(#one << #lowest_bit) }",
                                   "(self.raw_value & !(#one << #lowest_bit)) | ((#argument_converted as #internal_base_data_type) << #lowest_bit)", [], True),
     "bp_enum_raw_value_match_free": (EN, "#raw_value_constructor(self as #base_type)", "#raw_value_constructor((self as #base_type) | 0)", [], True),
+    "bp_partial_holds_raw": (CG, None, None, [], True),
     "bp_rename_temp": (CG, "let extracted_bits = #extracted_bits;\n                            #convert_type::new_with_raw_value(extracted_bits)", "let raw_bits = #extracted_bits;\n                            #convert_type::new_with_raw_value(raw_bits)", [], True),
+}
+
+
+# mutants made of several edits in one file
+MULTI = {
+    # the builder's Partial type wraps the raw integer instead of the struct (same behaviour, different representation)
+    "bp_partial_holds_raw": [
+        ("#struct_vis struct #builder_struct_name<const MASK: #internal_base_data_type>(#struct_name);",
+         "#struct_vis struct #builder_struct_name<const MASK: #internal_base_data_type>(#internal_base_data_type);"),
+        ("array_setters.push(quote! { .#with_name(#i, value[#i]) });", "array_setters.push(quote! { .#with_name(#i, value[#i]) });\n                    let _ = &array_setters;"),
+        ("let value_transform = quote!(self.0 #( #array_setters )*);", "let value_transform = quote!(#struct_name { raw_value: self.0 } #( #array_setters )* .raw_value);"),
+        ("quote! { self.0.#with_name(value)},", "quote! { #struct_name { raw_value: self.0 }.#with_name(value).raw_value },"),
+        ("""            pub const fn build(&self) -> #struct_name {
+                self.0
+            }""", """            pub const fn build(&self) -> #struct_name {
+                #struct_name { raw_value: self.0 }
+            }"""),
+        ("quote! { #builder_struct_name(#struct_name::DEFAULT) }", "quote! { #builder_struct_name(#struct_name::DEFAULT.raw_value) }"),
+        ("quote! { #builder_struct_name(#struct_name::new_with_raw_value(0)) }", "quote! { #builder_struct_name(#struct_name::new_with_raw_value(0).raw_value) }"),
+        ("#builder_struct_name(#struct_name::new_with_raw_value(ZERO))", "#builder_struct_name(#struct_name::new_with_raw_value(ZERO).raw_value)"),
+    ],
 }
 
 
@@ -106,10 +128,13 @@ def run_one(name, tests, tier):
         shutil.copytree("/repo", repo, ignore=shutil.ignore_patterns("target", ".git"))
         p = os.path.join(repo, file)
         s = open(p).read()
-        if s.count(old) != 1:
-            res["error"] = "pattern occurs %d times" % s.count(old)
-            return res
-        open(p, "w").write(s.replace(old, new))
+        edits = MULTI.get(name) or [(old, new)]
+        for (o, n) in edits:
+            if s.count(o) != 1:
+                res["error"] = "pattern occurs %d times: %s" % (s.count(o), o[:50])
+                return res
+            s = s.replace(o, n)
+        open(p, "w").write(s)
         env = dict(os.environ, CARGO_NET_OFFLINE="true")
         if tests:
             r = subprocess.run("cargo test --workspace --no-fail-fast --offline 2>&1", shell=True, cwd=repo, env=env, stdout=subprocess.PIPE, text=True)
